@@ -30,13 +30,27 @@ theorem mem_names_of_isSome {fs : Fs} {p : String} (h : (fs.get? p).isSome) : p 
     have : ¬ (fs.get? p = none) := by simp [hx]
     exact Classical.not_not.mp (fun hn => this (Fs.get?_eq_none_iff_not_mem.mpr hn))
 
-theorem judge_model {fs0 : Fs} {J : List Job} (wf : JobsWF fs0 J) (hnd : (J.map (·.src)).Nodup)
+theorem lastNew_map (J : List Job) (p : String) :
+    lastNew (J.map fun j => (j.src, newContent j.body)) p = (lastJob J p).map fun j => newContent j.body := by
+  simp only [lastNew, lastJob, ← List.map_reverse, List.find?_map, Option.map_map]
+  rfl
+
+/-- What the model's final directory satisfies under EVERY fault plan (a failing clean-up included), every
+    `except` arrangement `cfg`, and for every list of in-place jobs (sources may repeat): all
+    clauses of the monitor except `noExtra`, and `onlyTempExtra` in its place. -/
+structure JudgeFacts (fs0 : Fs) (J : List Job) (r : Outcome × Trace) : Prop where
+  srcWhole : (judge fs0 (final fs0 r.2) (J.map fun j => (j.src, newContent j.body)) r.1.toEnd).srcWhole = true
+  okAllNew : (judge fs0 (final fs0 r.2) (J.map fun j => (j.src, newContent j.body)) r.1.toEnd).okAllNew = true
+  noneMissing : (judge fs0 (final fs0 r.2) (J.map fun j => (j.src, newContent j.body)) r.1.toEnd).noneMissing = true
+  unmatchedSame : (judge fs0 (final fs0 r.2) (J.map fun j => (j.src, newContent j.body)) r.1.toEnd).unmatchedSame = true
+  onlyTempExtra : (judge fs0 (final fs0 r.2) (J.map fun j => (j.src, newContent j.body)) r.1.toEnd).onlyTempExtra = true
+  namesOk : NamesOk fs0 J (final fs0 r.2)
+
+theorem judge_facts {fs0 : Fs} {J : List Job} (wf : JobsWF fs0 J)
     (hnames : fs0.names.Nodup) (htmp : ∀ j ∈ J, isTempName j.tmp = true)
-    (plan : Plan) (hplan : ∀ i, plan i = .raise → plan (i + 1) ≠ .raise) (i : Nat) :
-    (judge fs0 (final fs0 (runJobs {} plan i fs0 J).2)
-      (J.map fun j => (j.src, newContent j.body)) (runJobs {} plan i fs0 J).1.toEnd).holds = true := by
-  have M := runJobs_post {} plan wf J (fun _ h => h) hnd i fs0 (fun p _ => Or.inl rfl) rfl
-  generalize hr : runJobs {} plan i fs0 J = r at M
+    (cfg : Cfg) (plan : Plan) (i : Nat) : JudgeFacts fs0 J (runJobs cfg plan i fs0 J) := by
+  have M := runJobs_post cfg plan wf J (fun _ h => h) i fs0 (fun p _ => Or.inl rfl) rfl
+  generalize hr : runJobs cfg plan i fs0 J = r at M
   -- facts about the final directory
   have hfin := final_mem_or fs0 r.2
   have hW : Whole fs0 J (final fs0 r.2) := by
@@ -57,9 +71,9 @@ theorem judge_model {fs0 : Fs} {J : List Job} (wf : JobsWF fs0 J) (hnd : (J.map 
     have h1 := wf.srcExists j hj
     rw [he, wf.tmpFresh j' hj'] at h1
     cases h1
-  simp only [Verdict.holds, judge, Bool.and_eq_true]
-  refine ⟨⟨⟨⟨?_, ?_⟩, ?_⟩, ?_⟩, ?_⟩
+  refine ⟨?_, ?_, ?_, ?_, ?_, hN⟩
   · -- srcWhole
+    simp only [judge]
     rw [List.all_eq_true]
     intro x hx
     obtain ⟨j, hj, rfl⟩ := List.mem_map.mp hx
@@ -69,10 +83,12 @@ theorem judge_model {fs0 : Fs} {J : List Job} (wf : JobsWF fs0 J) (hnd : (J.map 
       cases hc : fs0.get? j.src with
       | none => simp [hc] at hs
       | some c => simp [h, hc]
-    · have : j = j' := eq_of_src_eq hnd hj hj' hs
-      subst this
-      simp [h]
+    · rw [h]
+      simp only [Bool.or_eq_true, List.any_eq_true]
+      right
+      exact ⟨(j'.src, newContent j'.body), List.mem_map.mpr ⟨j', hj', rfl⟩, by simp [hs]⟩
   · -- okAllNew
+    simp only [judge]
     cases ho : r.1 with
     | ok =>
       have := (M.ok ho).2
@@ -80,31 +96,13 @@ theorem judge_model {fs0 : Fs} {J : List Job} (wf : JobsWF fs0 J) (hnd : (J.map 
       rw [List.all_eq_true]
       intro x hx
       obtain ⟨j, hj, rfl⟩ := List.mem_map.mp hx
-      simp [this j hj]
+      obtain ⟨j', hl⟩ := lastJob_isSome hj
+      simp only [lastNew_map, hl, Option.map_some]
+      simp [this j.src j' hl]
     | raised k => simp [Outcome.toEnd]
     | killed k => simp [Outcome.toEnd]
-  · -- noExtra
-    rw [List.all_eq_true]
-    intro p hp
-    have hcase : (final fs0 r.2).names = fs0.names ∨
-        (∃ k, r.1 = .killed k) ∧ ∃ j ∈ J, (final fs0 r.2).names = fs0.names ++ [j.tmp] := by
-      cases ho : r.1 with
-      | ok => exact Or.inl (M.ok ho).1
-      | raised k => exact Or.inl (M.raised k ho rfl (hplan k (M.raisedAt k ho)))
-      | killed k =>
-        rcases M.killed k ho with h | h
-        · exact Or.inl h
-        · exact Or.inr ⟨⟨k, rfl⟩, h⟩
-    rcases hcase with h | ⟨⟨k, hk⟩, j, hj, h⟩
-    · rw [h] at hp
-      simp [contains_of_mem_names hp]
-    · rw [h] at hp
-      rcases List.mem_append.mp hp with hp | hp
-      · simp [contains_of_mem_names hp]
-      · simp only [List.mem_singleton] at hp
-        subst hp
-        simp [hk, Outcome.toEnd, htmp j hj]
   · -- noneMissing
+    simp only [judge]
     rw [List.all_eq_true]
     intro p hp
     apply contains_of_mem_names
@@ -112,6 +110,7 @@ theorem judge_model {fs0 : Fs} {J : List Job} (wf : JobsWF fs0 J) (hnd : (J.map 
     · rw [h]; exact hp
     · rw [h]; exact List.mem_append_left _ hp
   · -- unmatchedSame
+    simp only [judge]
     rw [List.all_eq_true]
     intro x hx
     obtain ⟨p, c⟩ := x
@@ -128,5 +127,63 @@ theorem judge_model {fs0 : Fs} {J : List Job} (wf : JobsWF fs0 J) (hnd : (J.map 
         rw [he, wf.tmpFresh j hj] at hg
         cases hg
       simp [hF p h1 h2, hg]
+  · -- onlyTempExtra
+    simp only [judge]
+    rw [List.all_eq_true]
+    intro p hp
+    rcases hN with h | ⟨j, hj, h⟩
+    · rw [h] at hp
+      simp [contains_of_mem_names hp]
+    · rw [h] at hp
+      rcases List.mem_append.mp hp with hp | hp
+      · simp [contains_of_mem_names hp]
+      · simp only [List.mem_singleton] at hp
+        subst hp
+        simp [htmp j hj]
+
+/-- Under every plan: everything but "no temporary file left behind". -/
+theorem judge_model_dirty {fs0 : Fs} {J : List Job} (wf : JobsWF fs0 J)
+    (hnames : fs0.names.Nodup) (htmp : ∀ j ∈ J, isTempName j.tmp = true)
+    (cfg : Cfg) (plan : Plan) (i : Nat) :
+    (judge fs0 (final fs0 (runJobs cfg plan i fs0 J).2)
+      (J.map fun j => (j.src, newContent j.body)) (runJobs cfg plan i fs0 J).1.toEnd).holdsDirty = true := by
+  have F := judge_facts wf hnames htmp cfg plan i
+  simp only [Verdict.holdsDirty, Bool.and_eq_true]
+  exact ⟨⟨⟨⟨F.srcWhole, F.okAllNew⟩, F.onlyTempExtra⟩, F.noneMissing⟩, F.unmatchedSame⟩
+
+/-- The full statement, for the code as it is now, whenever the clean-up itself did not fail (no
+    `removeTemp!` event) — Exceptions, BaseExceptions, kills and failing closes of either file, in any number. -/
+theorem judge_model {fs0 : Fs} {J : List Job} (wf : JobsWF fs0 J)
+    (hnames : fs0.names.Nodup) (htmp : ∀ j ∈ J, isTempName j.tmp = true)
+    (plan : Plan) (i : Nat) (hrm : ∀ ev ∈ (runJobs {} plan i fs0 J).2, ev.1 ≠ "removeTemp!") :
+    (judge fs0 (final fs0 (runJobs {} plan i fs0 J).2)
+      (J.map fun j => (j.src, newContent j.body)) (runJobs {} plan i fs0 J).1.toEnd).holds = true := by
+  have F := judge_facts wf hnames htmp {} plan i
+  have M := runJobs_post {} plan wf J (fun _ h => h) i fs0 (fun p _ => Or.inl rfl) rfl
+  generalize hr : runJobs {} plan i fs0 J = r at M F hrm
+  simp only [Verdict.holds, Bool.and_eq_true]
+  refine ⟨⟨⟨⟨F.srcWhole, F.okAllNew⟩, ?_⟩, F.noneMissing⟩, F.unmatchedSame⟩
+  -- noExtra
+  simp only [judge]
+  rw [List.all_eq_true]
+  intro p hp
+  have hcase : (final fs0 r.2).names = fs0.names ∨
+      (∃ k, r.1 = .killed k) ∧ ∃ j ∈ J, (final fs0 r.2).names = fs0.names ++ [j.tmp] := by
+    cases ho : r.1 with
+    | ok => exact Or.inl (M.ok ho).1
+    | raised k => exact Or.inl (M.raised k ho rfl rfl rfl hrm)
+    | killed k =>
+      rcases M.killed k ho with h | h
+      · exact Or.inl h
+      · exact Or.inr ⟨⟨k, rfl⟩, h⟩
+  rcases hcase with h | ⟨⟨k, hk⟩, j, hj, h⟩
+  · rw [h] at hp
+    simp [contains_of_mem_names hp]
+  · rw [h] at hp
+    rcases List.mem_append.mp hp with hp | hp
+    · simp [contains_of_mem_names hp]
+    · simp only [List.mem_singleton] at hp
+      subst hp
+      simp [hk, Outcome.toEnd, htmp j hj]
 
 end Pypyr.FsRewrite
